@@ -33,6 +33,8 @@ from pydicom import uid as pyuid  # noqa: E402
 from pydicom.dataset import FileMetaDataset  # noqa: E402
 
 CT = '1.2.840.10008.5.1.4.1.1.2'
+MR = '1.2.840.10008.5.1.4.1.1.4'
+SEC = '1.2.840.10008.5.1.4.1.1.7'
 TSS = [pyuid.ImplicitVRLittleEndian, pyuid.ExplicitVRLittleEndian, pyuid.ExplicitVRBigEndian]
 ADDR = ('store.example', 104)
 REMOTE = {'aet': 'SRV', 'address': ADDR[0], 'port': ADDR[1]}
@@ -182,14 +184,14 @@ def memory_service(handler_log):
     def svc(asce, ctx, msg):
         raw = msg.data_set if isinstance(msg.data_set, (bytes, bytearray)) else (msg.data_set.read() if msg.data_set else b'')
         handler_log.append({'d': tok(raw), 'cls': str(msg.sop_class_uid), 'inst': str(msg.affected_sop_instance_uid), 'ts': str(ctx.supported_ts),
-                            'bytes': bytes(raw)})
+                            'bytes': bytes(raw), 'ctxcls': str(ctx.sop_class)})
         rsp = pynetdicom2.dimsemessages.CStoreRSPMessage()
         rsp.message_id_being_responded_to = msg.message_id
         rsp.affected_sop_instance_uid = msg.affected_sop_instance_uid
         rsp.sop_class_uid = msg.sop_class_uid
         rsp.status = 0xB000 if len(handler_log) % 2 == 0 else 0
         asce.send(rsp, ctx.id)
-    svc.sop_classes = [CT]
+    svc.sop_classes = [CT, MR, SEC]
     return svc
 
 
@@ -210,7 +212,9 @@ def several_stores_one_association(ts, datasets, rng, mem, workdir):
             return st
         srv.on_receive_store = on_store
     srv.timeout = 60
-    cl = ae_mod.ClientAE('CL', supported_ts=[ts], max_pdu_length=rng.choice([1024, 16384])).add_scu(sc.storage_scu, [CT])
+    # instances of several classes on the one association: each store goes out on (and is handed over with) the
+    # presentation context of ITS class
+    cl = ae_mod.ClientAE('CL', supported_ts=[ts], max_pdu_length=rng.choice([1024, 16384])).add_scu(sc.storage_scu, [CT, MR, SEC])
     cl.timeout = 60
     out, err = [], None
     statuses_got = []
@@ -218,10 +222,10 @@ def several_stores_one_association(ts, datasets, rng, mem, workdir):
         net.register(ADDR, srv)
         try:
             with cl.request_association(REMOTE) as assoc:
-                svc = assoc.get_scu(CT)
+                svcs = {c: assoc.get_scu(c) for c in (CT, MR, SEC)}
                 for k, ds in enumerate(datasets):
                     handler.outcome = 0
-                    statuses_got.append(int(svc(ds, k + 1)))
+                    statuses_got.append(int(svcs[str(ds.SOPClassUID)](ds, k + 1)))
         except Exception as exc:      # noqa
             err = '%s: %s' % (type(exc).__name__, exc)
         net.wait_all(60)
@@ -235,7 +239,7 @@ def several_stores_one_association(ts, datasets, rng, mem, workdir):
             if g:
                 try:
                     back = dsref.decode(g['bytes'], ts.is_implicit_VR, ts.is_little_endian)
-                    readable = str(back.SOPInstanceUID) == str(ds.SOPInstanceUID)
+                    readable = str(back.SOPInstanceUID) == str(ds.SOPInstanceUID) and g['ctxcls'] == g['cls']
                 except Exception:      # noqa
                     readable = False
             got = {'called': g is not None, 'd': g['d'] if g else 0, 'cls': g['cls'] if g else '', 'inst': g['inst'] if g else '',
@@ -245,7 +249,7 @@ def several_stores_one_association(ts, datasets, rng, mem, workdir):
             g = seen[k] if k < len(seen) else None
             got = {x: (g[x] if g else {'called': False, 'd': 0, 'readable': False}.get(x, '')) for x in ('called', 'd', 'cls', 'inst', 'readable', 'ts')}
             hstatus = 0
-        out.append({'sent': {'d': tok(data), 'cls': CT, 'inst': str(ds.SOPInstanceUID)}, 'tsNegotiated': str(ts), 'handlerStatus': hstatus,
+        out.append({'sent': {'d': tok(data), 'cls': str(ds.SOPClassUID), 'inst': str(ds.SOPInstanceUID)}, 'tsNegotiated': str(ts), 'handlerStatus': hstatus,
                     'scuStatus': statuses_got[k] if k < len(statuses_got) else -1, 'maxA': cl.max_pdu_length, 'maxB': srv.max_pdu_length,
                     'dirMode': False, 'pdataA2B': lens if k == 0 else [], 'got': got, 'before': [], 'after': []})
     return out, err
@@ -429,7 +433,9 @@ def main(tier='quick'):
                 break
             ts = TSS[k % 3]
             mem = (k % 2 == 0)
-            dss = [make_dataset(rng, rng.choice([0, 50, 900]), None) for _ in range(2)] + [shared]
+            dss = [make_dataset(rng, rng.choice([0, 50, 900]), None) for _ in range(3)] + [shared]
+            for d_, c_ in zip(dss, (MR, CT, SEC)):
+                d_.SOPClassUID = c_
             rng.shuffle(dss)
             obs_list, err = several_stores_one_association(ts, dss, rng, mem, work)
             for j, obs in enumerate(obs_list):
